@@ -48,7 +48,8 @@ MAL = ['none', 'non-trashinfo-file', 'empty-info', 'truncated', 'binary', 'non-u
        'info-without-payload', 'payload-without-info', 'subdir-in-info', 'info-is-dir', 'no-header', 'crlf', 'dangling-info-link',
        'unreadable-dir-entry', 'no-date-same-path', 'invalid-date-same-path', 'date-with-utc-offset', 'date-with-Z', 'date-with-fraction',
        'editor-backup-of-a-good-info', 'stale-copy-of-a-good-info', 'temporary-file-with-a-good-stem',
-       'path-with-truncated-utf8-escape', 'path-with-invalid-utf8-escape']
+       'path-with-truncated-utf8-escape', 'path-with-invalid-utf8-escape',
+       'empty-info-named-with-format-characters', 'no-path-named-with-braces']
 NMAL = len(MAL)
 ORDER = ['insertion', 'reverse']
 TDS = ['/v/.Trash-1000', '/h/.local/share/Trash', '/v/.Trash/1000']
@@ -111,13 +112,17 @@ def mal_nodes(mk, td):
         return [W.f(i + 'm.trashinfo', '[Trash Info]\nPath=w/caf%C3\nDeletionDate=2020-01-01T00:00:00\n', 0o600, 4000), W.f(f + 'm', 'M', 0o644, 4001)]
     if k == 'path-with-invalid-utf8-escape':
         return [W.f(i + 'm.trashinfo', '[Trash Info]\nPath=w/m%FF%FE\nDeletionDate=2020-01-01T00:00:00\n', 0o600, 4000), W.f(f + 'm', 'M', 0o644, 4001)]
+    if k == 'empty-info-named-with-format-characters':  # (the NAME of the malformed file ends up in diagnostics)
+        return [W.f(i + 'My%20Notes 100%.trashinfo', '', 0o600, 4000), W.f(f + 'My%20Notes 100%', 'M', 0o644, 4001)]
+    if k == 'no-path-named-with-braces':
+        return [W.f(i + 'm{0}{x}%s.trashinfo', '[Trash Info]\nDeletionDate=2020-01-01T00:00:00\n', 0o600, 4000), W.f(f + 'm{0}{x}%s', 'M', 0o644, 4001)]
     if k == 'unreadable-dir-entry':
         return [W.l(i + 'loop.trashinfo', 'loop.trashinfo', 4000)]
     raise ValueError(k)
 
 
 # the malformed neighbour's own identity, to restrict outputs/effects to the well-formed ones
-MAL_MARKS = ('w/caf', 'w/m' + chr(0xfffd), 'aa.trashinfo~', 'aa.bak', 'aa.tmp', 'zz.trashinfo.swp', 'm.trashinfo', '/files/m', 'w/m', 'README.txt', '/info/sub', 'loop.trashinfo', '/m\n', '/m ', "/m'")
+MAL_MARKS = ('My%20Notes', 'm{0}{x}%s', 'w/caf', 'w/m' + chr(0xfffd), 'aa.trashinfo~', 'aa.bak', 'aa.tmp', 'zz.trashinfo.swp', 'm.trashinfo', '/files/m', 'w/m', 'README.txt', '/info/sub', 'loop.trashinfo', '/m\n', '/m ', "/m'")
 
 
 def good_nodes(td):
@@ -220,5 +225,5 @@ def obligations(tier):
            encodes=['trashcli.restore.sort_method.sort_files', 'sorter_for'], bounds='3 entries, symbolic presence of each date, symbolic sharing of original paths, 3 sort modes'),
         CH('W_neighbour_x_order_x_dir_x_cmd', MOD, 'w_main', timeout=900, partitions=list(range(8)), engine='W', regime='selector',
            encodes=K.LIST_FUNCS + K.RESTORE_FUNCS + K.RM_FUNCS + K.EMPTY_FUNCS, stubs=K.STUBS,
-           bounds='27 neighbours x 2 directory orders x 3 trash dirs x 8 command/argument combinations'),
+           bounds='29 neighbours x 2 directory orders x 3 trash dirs x 8 command/argument combinations'),
     ]
